@@ -14,8 +14,6 @@ def c13_str_fallback_collision(w):
     k = w['klass']
     if not (k.get('str_fallback') is True and k.get('str_collision') is True):
         return False
-    if k.get('op') == 'values' and k.get('container') == 'frame' and k.get('axis') == 1 and k.get('nkeys', 0) >= 2:
-        return False  # owned by c13_axis1_fallback_restores_rows
     if w['what'] in _GROUP_WRONG:
         return True
     # equal keys in two groups cannot label an apply result
